@@ -1,1 +1,343 @@
-/- C04 property theorems (stub: not built yet) -/
+import ThriftVerif.Lib.Diag
+import ThriftVerif.Lib.DiagLemmas
+import ThriftVerif.Generated.C04
+/-
+  C04 — invalid input is diagnosed: non-zero exit, message, no output, no crash (DESIGN.md §5.4).
+  Property theorems only; helper lemmas are in Lib/DiagLemmas.lean.
+
+  `cfg` is the regenerated description of the current source (order of the five checks, whether
+  CheckUnions assigns hasDefault, the categories ResolveType accepts, whether handlePanic exits
+  non-zero); the theorems are about `run cfg`, so `lake build` re-checks them against what the
+  code says on every run.  Every rule theorem has the shape
+
+      for every program `p` the parser can hand over (`WF`), every file `i` reachable from the
+      main file through includes, every position inside that file:  the run is rejected.
+
+  `Rejected` = exits non-zero at a named stage; by `reject_writes_nothing` nothing was persisted.
+  Resolver-stage theorems carry `hnc : outcome ≠ crash`: `getEnum` recurses without bound before
+  typedef cycles are rejected (the run can die of a stack overflow first, see `no_crash_partial`
+  and `crash_witness`).
+-/
+namespace Props.C04
+open Diag Generated.C04
+
+/-- the run exits non-zero at a named stage -/
+def Rejected (env : Env) (p : Program) : Prop := ∃ s, (run cfg env p).outcome = .reject s
+
+/-! ## obligations on the regenerated facts -/
+
+/-- InvokeThriftgo still calls its stages in the order `run` hard-codes, Persist last, and every
+stage that can fail is followed by a returning error test. -/
+theorem pipeline_order : pipeline = modelPipeline ∧ everyStageGuarded = true := by decide
+
+/-- CheckAll still runs all five checks. -/
+theorem check_order_complete : ∀ c : CheckFn, c ∈ cfg.checkOrder := by
+  intro c; cases c <;> decide
+
+/-- ResolveType accepts typedefs, enums and struct-likes as types and refuses constants and services. -/
+theorem type_categories :
+    isTypeCat cfg .typedef = true ∧ isTypeCat cfg .enum = true ∧ isTypeCat cfg .struct = true ∧
+    isTypeCat cfg .union = true ∧ isTypeCat cfg .exception = true ∧
+    isTypeCat cfg .constant = false ∧ isTypeCat cfg .service = false := by decide
+
+/-! ## anywhere in the include graph -/
+
+/-- **anywhere_in_graph** (checker rules): a file reachable through includes — at any depth, through
+diamonds — that breaks a checker rule makes the run end in a rejection.  (DepthFirstSearch visits
+every reachable file: induction over the include graph with the visited-set invariant.) -/
+theorem anywhere_in_graph (env : Env) (p : Program) (w : WF p) (hpp : env.parsePanics = false)
+    (i : Nat) (f : File) (hr : Reach p i) (hf : p.files[i]? = some f) (c : CheckFn)
+    (hv : runCheck cfg c f ≠ none) : Rejected env p :=
+  run_reject_of_check w hpp (checkAll_err_of_violation w hr hf (checkFile_of_check (check_order_complete c) hv))
+
+/-- **anywhere_in_graph** (resolver rules): a reachable file on which ResolveAST fails ends the run. -/
+theorem anywhere_in_graph_resolve (env : Env) (p : Program) (w : WF p) (hpp : env.parsePanics = false)
+    (i : Nat) (hr : Reach p i) (hv : resolveFile cfg p (programTables p) i ≠ .ok)
+    (hnc : (run cfg env p).outcome ≠ .crash) : Rejected env p :=
+  run_of_resolve_bad hpp (resolveAll_of_file w hr hv) hnc
+
+/-! ## checker rules -/
+
+/-- two typedefs / constants / struct-likes / services of one file with the same name, whatever lies
+before, between and after them -/
+theorem dup_global_rejected (env : Env) (p : Program) (w : WF p) (hpp : env.parsePanics = false)
+    (i : Nat) (f : File) (hr : Reach p i) (hf : p.files[i]? = some f)
+    (x : Name) (a b c : List Name) (h : f.globalNames = a ++ x :: (b ++ x :: c)) : Rejected env p :=
+  anywhere_in_graph env p w hpp i f hr hf .globals (by simp [runCheck, checkGlobals, h, dupScan_dup])
+
+/-- … and when one of the two is an enum (CheckGlobals does not look at enums) RegisterNames refuses it -/
+theorem dup_symbol_rejected (env : Env) (p : Program) (w : WF p) (hpp : env.parsePanics = false)
+    (i : Nat) (f : File) (hr : Reach p i) (hf : p.files[i]? = some f)
+    (n : Name) (c1 c2 : Cat) (a b r : List (Name × Cat)) (h : f.symbols = a ++ (n, c1) :: (b ++ (n, c2) :: r))
+    (hnc : (run cfg env p).outcome ≠ .crash) : Rejected env p :=
+  anywhere_in_graph_resolve env p w hpp i hr
+    (resolveFile_of_dup hf (by simp [registerNames, h, addAll_dup])) hnc
+
+theorem dup_field_name_rejected (env : Env) (p : Program) (w : WF p) (hpp : env.parsePanics = false)
+    (i : Nat) (f : File) (hr : Reach p i) (hf : p.files[i]? = some f)
+    (s : StructLike) (hs : s ∈ f.structLikes) (f1 f2 : Field) (a b c : List Field)
+    (h : s.fields = a ++ f1 :: (b ++ f2 :: c)) (hn : f1.name = f2.name) : Rejected env p :=
+  anywhere_in_graph env p w hpp i f hr hf .structLikes
+    (findSome?_ne_none hs (by rw [h]; exact fieldLoop_dup f1 f2 (Or.inr hn) a b c))
+
+theorem dup_field_id_rejected (env : Env) (p : Program) (w : WF p) (hpp : env.parsePanics = false)
+    (i : Nat) (f : File) (hr : Reach p i) (hf : p.files[i]? = some f)
+    (s : StructLike) (hs : s ∈ f.structLikes) (f1 f2 : Field) (a b c : List Field)
+    (h : s.fields = a ++ f1 :: (b ++ f2 :: c)) (hn : f1.id = f2.id) : Rejected env p :=
+  anywhere_in_graph env p w hpp i f hr hf .structLikes
+    (findSome?_ne_none hs (by rw [h]; exact fieldLoop_dup f1 f2 (Or.inl hn) a b c))
+
+theorem dup_function_rejected (env : Env) (p : Program) (w : WF p) (hpp : env.parsePanics = false)
+    (i : Nat) (f : File) (hr : Reach p i) (hf : p.files[i]? = some f)
+    (s : Service) (hs : s ∈ f.services) (g1 g2 : Func) (a b c : List Func)
+    (h : s.funcs = a ++ g1 :: (b ++ g2 :: c)) (hn : g1.name = g2.name) : Rejected env p :=
+  anywhere_in_graph env p w hpp i f hr hf .functions
+    (findSome?_ne_none hs (by rw [h]; exact funcLoop_dup g1 g2 hn a b c))
+
+theorem dup_enum_value_name_rejected (env : Env) (p : Program) (w : WF p) (hpp : env.parsePanics = false)
+    (i : Nat) (f : File) (hr : Reach p i) (hf : p.files[i]? = some f)
+    (e : EnumDef) (he : e ∈ f.enums) (n : Name) (v1 v2 : Int) (a b c : List (Name × Int))
+    (h : e.values = a ++ (n, v1) :: (b ++ (n, v2) :: c)) : Rejected env p :=
+  anywhere_in_graph env p w hpp i f hr hf .enums
+    (findSome?_ne_none he (by rw [h]; exact enumLoop_dup_name n v1 v2 a b c))
+
+/-- two values with the same number: refused whether or not their names differ -/
+theorem dup_enum_number_rejected (env : Env) (p : Program) (w : WF p) (hpp : env.parsePanics = false)
+    (i : Nat) (f : File) (hr : Reach p i) (hf : p.files[i]? = some f)
+    (e : EnumDef) (he : e ∈ f.enums) (n1 n2 : Name) (v : Int) (a b c : List (Name × Int))
+    (h : e.values = a ++ (n1, v) :: (b ++ (n2, v) :: c)) : Rejected env p :=
+  anywhere_in_graph env p w hpp i f hr hf .enums
+    (findSome?_ne_none he (by rw [h]; exact enumLoop_dup_number n1 n2 v a b c))
+
+theorem enum_out_of_int32_rejected (env : Env) (p : Program) (w : WF p) (hpp : env.parsePanics = false)
+    (i : Nat) (f : File) (hr : Reach p i) (hf : p.files[i]? = some f)
+    (e : EnumDef) (he : e ∈ f.enums) (n : Name) (v : Int) (a c : List (Name × Int))
+    (h : e.values = a ++ (n, v) :: c) (hv : v < -2147483648 ∨ v > 2147483647) : Rejected env p :=
+  anywhere_in_graph env p w hpp i f hr hf .enums
+    (findSome?_ne_none he (by rw [h]; exact enumLoop_range n v hv a c))
+
+theorem oneway_nonvoid_rejected (env : Env) (p : Program) (w : WF p) (hpp : env.parsePanics = false)
+    (i : Nat) (f : File) (hr : Reach p i) (hf : p.files[i]? = some f)
+    (s : Service) (hs : s ∈ f.services) (g : Func) (a c : List Func)
+    (h : s.funcs = a ++ g :: c) (ho : g.oneway = true) (hv : g.void = false) : Rejected env p :=
+  anywhere_in_graph env p w hpp i f hr hf .functions
+    (findSome?_ne_none hs (by rw [h]; exact funcLoop_oneway g ⟨ho, Or.inl hv⟩ a c))
+
+theorem oneway_throws_rejected (env : Env) (p : Program) (w : WF p) (hpp : env.parsePanics = false)
+    (i : Nat) (f : File) (hr : Reach p i) (hf : p.files[i]? = some f)
+    (s : Service) (hs : s ∈ f.services) (g : Func) (a c : List Func)
+    (h : s.funcs = a ++ g :: c) (ho : g.oneway = true) (ht : g.throws ≠ []) : Rejected env p :=
+  anywhere_in_graph env p w hpp i f hr hf .functions
+    (findSome?_ne_none hs (by rw [h]; exact funcLoop_oneway g ⟨ho, Or.inr ht⟩ a c))
+
+/-! ### second default value in a union — NOT provable on the current source
+
+Full statement (what the property demands):
+
+    theorem union_second_default_rejected … (u ∈ f.unions)
+        (h : u.fields = a ++ f1 :: (b ++ f2 :: c)) (h1 : f1.hasDefault) (h2 : f2.hasDefault) : Rejected env p
+
+It holds exactly when CheckUnions assigns `hasDefault` (regenerated fact `unionSetsHasDefault`);
+on the current source that fact is `false` and the check can never fire. -/
+
+theorem union_second_default_rejected_partial (hfix : cfg.unionSetsHasDefault = true)
+    (env : Env) (p : Program) (w : WF p) (hpp : env.parsePanics = false)
+    (i : Nat) (f : File) (hr : Reach p i) (hf : p.files[i]? = some f)
+    (u : StructLike) (hu : u ∈ f.unions) (f1 f2 : Field) (a b c : List Field)
+    (h : u.fields = a ++ f1 :: (b ++ f2 :: c)) (h1 : f1.hasDefault = true) (h2 : f2.hasDefault = true) :
+    Rejected env p :=
+  anywhere_in_graph env p w hpp i f hr hf .unions
+    (findSome?_ne_none hu (by rw [h, hfix]; exact unionLoop_sets_dup f1 f2 h1 h2 a b c false))
+
+/-- without the assignment, CheckUnions accepts every union, whatever its defaults -/
+theorem union_check_never_fires (hnofix : cfg.unionSetsHasDefault = false) (f : File) : checkUnions cfg f = none := by
+  simp only [checkUnions, hnofix, List.findSome?_eq_none_iff]
+  exact fun u _ => unionLoop_never u.fields
+
+/-! ## resolver rules -/
+
+/-- a name used as a type, at any type position and at any depth inside containers, that the file
+does not define -/
+theorem undefined_type_rejected (env : Env) (p : Program) (w : WF p) (hpp : env.parsePanics = false)
+    (i : Nat) (f : File) (hr : Reach p i) (hf : p.files[i]? = some f) (tbl : Table) (ht : registerNames f = some tbl)
+    (t : Ty) (hsite : TypeSite f t) (n a : Name) (hm : Mentions n t)
+    (hs : splitType n = .one a) (hu : tlookup a tbl = none)
+    (hnc : (run cfg env p).outcome ≠ .crash) : Rejected env p := by
+  obtain ⟨tgt, hw⟩ := typeSite_work hsite
+  exact anywhere_in_graph_resolve env p w hpp i hr
+    (resolveFile_of_work hf ht hw (resolveType_mentions (badRef_undefined hs hu) hm tgt)) hnc
+
+/-- `inc.Name` where no include called `inc` defines `Name` as a type (no such include, no such
+name, or the name is a constant or a service there) -/
+theorem undefined_qualified_type_rejected (env : Env) (p : Program) (w : WF p) (hpp : env.parsePanics = false)
+    (i : Nat) (f : File) (hr : Reach p i) (hf : p.files[i]? = some f) (tbl : Table) (ht : registerNames f = some tbl)
+    (t : Ty) (hsite : TypeSite f t) (n pre nm : Name) (hm : Mentions n t)
+    (hs : splitType n = .two pre nm)
+    (hu : ∀ v ∈ incViews (programTables p) f, v.pfx = pre → ∀ c, tlookup nm v.tbl = some c → isTypeCat cfg c = false)
+    (hnc : (run cfg env p).outcome ≠ .crash) : Rejected env p := by
+  obtain ⟨tgt, hw⟩ := typeSite_work hsite
+  exact anywhere_in_graph_resolve env p w hpp i hr
+    (resolveFile_of_work hf ht hw (resolveType_mentions (badRef_qualified hs hu) hm tgt)) hnc
+
+/-- a constant or a service used as a type -/
+theorem nontype_symbol_as_type_rejected (env : Env) (p : Program) (w : WF p) (hpp : env.parsePanics = false)
+    (i : Nat) (f : File) (hr : Reach p i) (hf : p.files[i]? = some f) (tbl : Table) (ht : registerNames f = some tbl)
+    (t : Ty) (hsite : TypeSite f t) (n a : Name) (hm : Mentions n t)
+    (hs : splitType n = .one a) (c : Cat) (hc : c = .constant ∨ c = .service) (hu : tlookup a tbl = some c)
+    (hnc : (run cfg env p).outcome ≠ .crash) : Rejected env p := by
+  obtain ⟨tgt, hw⟩ := typeSite_work hsite
+  have h3 : isTypeCat cfg c = false := by
+    rcases hc with rfl | rfl
+    · exact type_categories.2.2.2.2.2.1
+    · exact type_categories.2.2.2.2.2.2
+  exact anywhere_in_graph_resolve env p w hpp i hr
+    (resolveFile_of_work hf ht hw (resolveType_mentions (badRef_nontype hs hu h3) hm tgt)) hnc
+
+/-- `extends` naming something that is not a service of this file / of the include with that prefix -/
+theorem unknown_base_service_rejected (env : Env) (p : Program) (w : WF p) (hpp : env.parsePanics = false)
+    (i : Nat) (f : File) (hr : Reach p i) (hf : p.files[i]? = some f) (tbl : Table) (ht : registerNames f = some tbl)
+    (s : Service) (hs : s ∈ f.services)
+    (hb : (∃ a, splitType s.ext = .one a ∧ tlookup a tbl ≠ some .service) ∨
+          (∃ pre nm, splitType s.ext = .two pre nm ∧
+            ∀ v ∈ incViews (programTables p) f, v.pfx = pre → ∀ c, tlookup nm v.tbl = some c → (c == Cat.service) = false))
+    (hnc : (run cfg env p).outcome ≠ .crash) : Rejected env p := by
+  have hbase : resolveBase tbl (incViews (programTables p) f) s = false := by
+    rcases hb with ⟨a, h1, h2⟩ | ⟨pre, nm, h1, h2⟩
+    · simp [resolveBase, h1, h2]
+    · have := findExt_none (good := fun c => decide (c = Cat.service)) (incViews (programTables p) f) 0
+        (fun v hv hp c hc => by simpa using h2 v hv hp c hc)
+      simp [resolveBase, h1, this]
+  exact anywhere_in_graph_resolve env p w hpp i hr (resolveFile_of_work hf ht (base_work hs) hbase) hnc
+
+/-- **typedef cycles of any length** (and any other knot): a non-empty set `C` of typedefs of one
+file, each written as an alias of a member of `C`.  A cycle `A₁ → A₂ → … → Aₙ → A₁` is the case
+`C = [k₁, …, kₙ]`; `n = 1` is `typedef A A`. -/
+theorem typedef_cycle_rejected (env : Env) (p : Program) (w : WF p) (hpp : env.parsePanics = false)
+    (i : Nat) (f : File) (hr : Reach p i) (hf : p.files[i]? = some f)
+    (C : List Nat) (hk : TypedefKnot f C)
+    (hnc : (run cfg env p).outcome ≠ .crash) : Rejected env p :=
+  anywhere_in_graph_resolve env p w hpp i hr (resolveFile_of_knot type_categories.1 hf hk) hnc
+
+/-- a plain identifier (no dot, not true/false) in a constant or in the default of a struct-like
+field that is not a constant of the file -/
+theorem undefined_const_rejected (env : Env) (p : Program) (w : WF p) (hpp : env.parsePanics = false)
+    (i : Nat) (f : File) (hr : Reach p i) (hf : p.files[i]? = some f) (tbl : Table) (ht : registerNames f = some tbl)
+    (ids : List Name) (hsite : IdentSite f ids) (a b : List Name) (id : Name) (hids : ids = a ++ id :: b)
+    (hplain : splitValue id = [[id]]) (hnb : isBoolIdent id = false)
+    (hu : tlookup id (tableOf (programTables p) i) ≠ some .constant)
+    (hnc : (run cfg env p).outcome ≠ .crash) : Rejected env p := by
+  refine anywhere_in_graph_resolve env p w hpp i hr (resolveFile_of_work hf ht (identSite_work hsite) ?_) hnc
+  have hid : resolveIdent cfg p (programTables p) (enumFuel p) i f id = .undefined := by
+    simp [resolveIdent, hnb, countIdent, hplain, countSplit, hu, addCounts]
+  subst hids
+  exact resolveIdents_bad (by rw [hid]; simp) b a
+
+/-- any identifier — dotted or not — for which the resolver finds no or more than one reading -/
+theorem undefined_or_ambiguous_const_rejected (env : Env) (p : Program) (w : WF p) (hpp : env.parsePanics = false)
+    (i : Nat) (f : File) (hr : Reach p i) (hf : p.files[i]? = some f) (tbl : Table) (ht : registerNames f = some tbl)
+    (ids : List Name) (hsite : IdentSite f ids) (a b : List Name) (id : Name) (hids : ids = a ++ id :: b)
+    (hbad : resolveIdent cfg p (programTables p) (enumFuel p) i f id = .undefined ∨
+            resolveIdent cfg p (programTables p) (enumFuel p) i f id = .ambiguous)
+    (hnc : (run cfg env p).outcome ≠ .crash) : Rejected env p := by
+  refine anywhere_in_graph_resolve env p w hpp i hr (resolveFile_of_work hf ht (identSite_work hsite) ?_) hnc
+  subst hids
+  exact resolveIdents_bad (by rcases hbad with h | h <;> rw [h] <;> simp) b a
+
+/-! ## the include graph -/
+
+/-- **include cycles of any length**, through the main file or not: some reachable file `i`
+includes `k` and `k` leads back to `i` (`k = i`: a file including itself). -/
+theorem include_cycle_rejected (env : Env) (p : Program) (w : WF p) (hpp : env.parsePanics = false)
+    (i k : Nat) (hr : Reach p i) (e : Edge p i k) (hback : Path p k i) : Rejected env p :=
+  run_reject_of_circle hpp (circleDetect_complete w hr e hback)
+
+/-! ## stages abstracted by predicates: command line, syntax / missing include, backend constant typing -/
+
+theorem abstract_stage_rejected (env : Env) (p : Program)
+    (h : env.flagsBad = true ∨
+      (env.parsePanics = false ∧ env.syntaxBad = true) ∨
+      (env.parsePanics = false ∧ env.backendPanics = false ∧ (env.targetsBad = true ∨ env.backendBad = true) ∧
+        (run cfg env p).outcome ≠ .crash)) :
+    Rejected env p := run_abstract h
+
+/-! ## nothing is written unless the run succeeds; no crash; no silent success -/
+
+/-- **reject_writes_nothing**: Generator.Persist is reached only by an accepted run (Persist is the
+last call of InvokeThriftgo: `pipeline_order`). -/
+theorem reject_writes_nothing (env : Env) (p : Program) :
+    ((run cfg env p).persisted = true ↔ (run cfg env p).outcome = .ok) ∧
+    (∀ s, (run cfg env p).outcome = .reject s → (run cfg env p).persisted = false) := by
+  refine ⟨run_persisted_iff cfg env p, fun s h => ?_⟩
+  cases hp : (run cfg env p).persisted with
+  | false => rfl
+  | true => rw [(run_persisted_iff cfg env p).mp hp] at h; cases h
+
+/- Full statement (false on the current source, see `crash_witness`):
+     theorem no_crash (env) (p) (w : WF p) : (run cfg env p).outcome ≠ .crash -/
+
+/-- **no_crash_partial**: no run dies of a Go fatal error provided no dotted constant identifier
+selects through a typedef (`A.x` with `A` a typedef, `inc.A.x` with `A` a typedef of `inc`): then
+getEnum never recurses.  Fuel never runs out in DepthFirstSearch, CircleDetect (pigeonhole on the
+path / visited set) or ResolveTypedefs (every round that goes on removes a pair). -/
+theorem no_crash_partial (env : Env) (p : Program) (w : WF p) (hs : identsAvoidTypedefs p = true) :
+    (run cfg env p).outcome ≠ .crash :=
+  run_no_crash w hs
+
+/-- **no_exit0_without_output_partial**: the only way to leave with status 0 and no output is a Go
+panic reaching `main.handlePanic` while that function does not exit non-zero.  No modelled stage
+produces such a panic; the parser (C03) and the backend are the predicates `parsePanics`,
+`backendPanics`. -/
+theorem no_exit0_without_output_partial (env : Env) (p : Program)
+    (h : cfg.handlePanicExits = true ∨ (env.parsePanics = false ∧ env.backendPanics = false)) :
+    (run cfg env p).outcome ≠ .exit0NoOutput := by
+  intro he
+  have := run_exit0 he
+  rcases h with h | ⟨h1, h2⟩
+  · rw [h] at this; exact absurd this.1 (by simp)
+  · rcases this.2 with h' | h' <;> simp_all
+
+/-! ## negative witnesses (the property is false there, on the model as on the code) -/
+
+private def nm (s : String) : Name := s.toList.map Char.toNat
+private def env0 : Env := ⟨false, false, false, false, false, false⟩
+private def file0 : File := ⟨[109], [], [], [], [], [], [], [], []⟩
+
+/-- `union U { 1: i32 a = 1, 2: i32 b = 2 }` is accepted -/
+def unionWitness : Program :=
+  ⟨[{ file0 with unions := [⟨[85], [⟨1, [97], .base, true, []⟩, ⟨2, [98], .base, true, []⟩]⟩] }], 0⟩
+
+theorem union_second_default_witness (hnofix : cfg.unionSetsHasDefault = false) :
+    (run cfg env0 unionWitness).outcome = .ok := by
+  have : cfg = ⟨checkOrder, false, typeCats, handlePanicExits⟩ := by
+    simp only [cfg] at hnofix ⊢; rw [hnofix]
+  rw [this]; decide
+
+/-- `typedef B A  typedef A B  const i32 x = A.foo` : getEnum never returns -/
+def crashWitness : Program :=
+  ⟨[{ file0 with typedefs := [⟨[65], .ref [66]⟩, ⟨[66], .ref [65]⟩], consts := [⟨[120], .base, [[65, 46, 102]]⟩] }], 0⟩
+
+theorem crash_witness : (run cfg env0 crashWitness).outcome = .crash := by decide
+
+/-- `service S { void f(1: i32 a, 1: i32 a) }` : CheckFunctions does not look at the names and
+ids of arguments (nor of throws entries) -/
+def dupArgWitness : Program :=
+  ⟨[{ file0 with services := [⟨[83], [], [⟨[102], false, true, .base,
+      [⟨1, [97], .base, false, []⟩, ⟨1, [97], .base, false, []⟩],
+      [⟨1, [101], .base, false, []⟩, ⟨1, [101], .base, false, []⟩]⟩]⟩] }], 0⟩
+
+theorem dup_argument_witness : (run cfg env0 dupArgWitness).outcome = .ok := by decide
+
+/-! ## the hypotheses are satisfiable -/
+
+example : WF crashWitness := (wfb_iff _).mp (by decide)
+example : identsAvoidTypedefs unionWitness = true := by decide
+example : TypedefKnot ⟨[109], [], [⟨[65], .ref [66]⟩, ⟨[66], .ref [67]⟩, ⟨[67], .ref [65]⟩], [], [], [], [], [], []⟩ [0, 1, 2] :=
+  ⟨by decide, fun k hk => by
+    simp only [List.mem_cons, List.not_mem_nil, or_false] at hk
+    rcases hk with rfl | rfl | rfl
+    · exact ⟨_, [66], rfl, rfl, by decide, 1, by decide, by decide⟩
+    · exact ⟨_, [67], rfl, rfl, by decide, 2, by decide, by decide⟩
+    · exact ⟨_, [65], rfl, rfl, by decide, 0, by decide, by decide⟩⟩
+example : Reach crashWitness 0 := .refl 0
+
+end Props.C04
